@@ -326,8 +326,13 @@ func (b *outlierDetectionBalancer) UpdateClientConnState(s balancer.ClientConnSt
 		}
 	}
 
-	for ep := range b.endpoints.All() {
+	for ep, epInfo := range b.endpoints.All() {
 		if _, ok := newEndpoints.Get(ep); !ok {
+			if !epInfo.latestEjectionTimestamp.IsZero() {
+				// The removed endpoint no longer counts towards the ejected
+				// share of current endpoints.
+				b.numEndpointsEjected--
+			}
 			b.endpoints.Delete(ep)
 		}
 	}
